@@ -911,6 +911,7 @@ pub fn worker(input: &Value) -> Value {
     let want_trace = input["trace"].as_bool().unwrap_or(false);
     let mut trace: Vec<Value> = Vec::new();
     let mut run = shard;
+    let mut abandoned_runs = 0;
     while run < runs {
         let sc = gen(seed, boot_seed, run, &pool);
         if std::env::var_os("VERIF_TRACE").is_some() {
@@ -936,6 +937,14 @@ pub fn worker(input: &Value) -> Value {
         hist.insert(rep.history_digest);
         if let Some(h) = &rep.harness_error {
             harness_errors.push(json!({"what": h, "scenario": sc.to_json()}));
+            // circuit breaker (see cellsim::worker): two runs abandoned by the watchdog end the worker
+            if h.contains(crate::run::WATCHDOG) {
+                abandoned_runs += 1;
+                if abandoned_runs >= 2 {
+                    harness_errors.push(json!({"what": "worker stopped after two abandoned runs"}));
+                    break;
+                }
+            }
         }
         if run % 40 == shard % 40 {
             let again = run_scenario(&sc);
